@@ -411,4 +411,130 @@ Section RU.
         destruct (cdrain F fuel _) as [c1 evs1]. destruct (cdeliver F fuel c1 cs) as [c2 evs2].
         exists c2, (evs1 ++ evs2). reflexivity.
   Qed.
+
+  (* ---------------- resynchronisation after a size error ---------------- *)
+  (* J T rest : the first separator occurrence of T ends the frame being skipped, and what follows it is [rest] *)
+  Definition resync_at (T rest : bytes) (q : nat) : Prop :=
+    find0 sep T = Some q /\ skipn (q + sl) T = rest.
+
+  Lemma overrun_tail (b rem' rest : bytes) q :
+    find0 sep b = None -> sl <= length b -> resync_at (b ++ rem') rest q ->
+    let t := overrun_remainder sep b (length b + 1 - sl) in
+    length t < sl /\ find0 sep t = None /\ exists q', resync_at (t ++ rem') rest q'.
+  Proof.
+    intros Hnf Hlen (Hq & Hrest) t. pose proof sl_pos as Hsl.
+    pose proof (find0_Some _ _ _ Hq) as [Hocc Hfirst].
+    set (off := length b + 1 - sl) in *.
+    set (r0 := skipn off b).
+    assert (Hr0 : length r0 = sl - 1) by (unfold r0, off; rewrite skipn_length; lia).
+    assert (Ht : t = strip_to_sep_prefix sep r0).
+    { unfold t. rewrite (overrun_remainder_ne _ _ _ sep_ne). fold r0.
+      destruct (bytes_eqb (firstn (length sep) r0) sep) eqn:Eb; [|reflexivity].
+      apply bytes_eqb_eq in Eb. apply (f_equal (@length byte)) in Eb. rewrite firstn_length in Eb. fold sl in Eb. lia. }
+    destruct (strip_spec sep r0) as (k & Hk & Hs & Hj). rewrite <- Ht in Hs.
+    assert (Htlen : length t = sl - 1 - k) by (rewrite Hs, skipn_length; lia).
+    (* the occurrence at q cannot start inside b before off + k *)
+    assert (Hqb : length b < q + sl).
+    { destruct (le_lt_dec (q + sl) (length b)) as [Hin|]; [|assumption].
+      rewrite occ_app_inv in Hocc by (fold sl; lia). rewrite (find0_None _ _ Hnf) in Hocc. discriminate. }
+    assert (Hqk : off + k <= q).
+    { destruct (le_lt_dec (off + k) q) as [|Hlt]; [assumption|]. exfalso.
+      (* then skipn (q - off) r0 is a separator prefix, contradicting minimality of k *)
+      assert (Hj' := Hj (q - off) ltac:(unfold off in *; lia)).
+      assert (Hpre : sep_pfx sep (skipn (q - off) r0) = true).
+      { unfold r0. rewrite skipn_skipn. replace (off + (q - off)) with q by (unfold off in *; lia).
+        replace (skipn q b) with (firstn (length b - q) (skipn q (b ++ rem'))).
+        - apply sep_pfx_of_occ; [exact Hocc | lia].
+        - rewrite skipn_app_le by lia. rewrite firstn_app_le by (rewrite skipn_length; lia).
+          apply firstn_all2. rewrite skipn_length. lia. }
+      congruence. }
+    assert (Hb : b = firstn (off + k) b ++ t).
+    { rewrite Hs. unfold r0. rewrite skipn_skipn. symmetry. apply firstn_skipn. }
+    split; [lia|]. split.
+    - apply find0_occ_none. intros j. destruct (occ sep t j) eqn:E; [|reflexivity].
+      apply (occ_bound _ _ _ sep_ne) in E. fold sl in E. lia.
+    - exists (q - (off + k)). unfold resync_at.
+      assert (HT : b ++ rem' = firstn (off + k) b ++ (t ++ rem')) by (rewrite app_assoc, <- Hb; reflexivity).
+      assert (Hfl : length (firstn (off + k) b) = off + k) by (rewrite firstn_length; unfold off in *; lia).
+      split.
+      + apply find0_first.
+        * unfold occ in *. rewrite HT in Hocc. rewrite skipn_app in Hocc. rewrite Hfl in Hocc.
+          rewrite skipn_all2 in Hocc by lia. exact Hocc.
+        * intros j Hjlt. specialize (Hfirst (j + (off + k)) ltac:(lia)). unfold occ in *.
+          rewrite HT in Hfirst. rewrite skipn_app in Hfirst. rewrite Hfl in Hfirst.
+          rewrite skipn_all2 in Hfirst by lia. replace (j + (off + k) - (off + k)) with j in Hfirst by lia. exact Hfirst.
+      + rewrite <- Hrest. rewrite HT. rewrite (skipn_app (q + sl)). rewrite Hfl.
+        rewrite (skipn_all2 (n := q + sl) (firstn (off + k) b)) by lia. cbn [app]. f_equal. lia.
+  Qed.
+
+  (* a size-rejected (or simply skipped) frame costs some junk events; delivery then resumes intact with [rest] *)
+  Theorem resync_spec cs : forall c w fuel (rest : bytes) q,
+    crep c w -> Forall (fun ch => ch <> []) cs -> resync_at (w ++ concat cs) rest q -> safe rest ->
+    length (w ++ concat cs) < fuel ->
+    exists c' junk, cdeliver F fuel c cs = (c', junk ++ fst (spec_events rest)) /\ crep c' (snd (spec_events rest)) /\
+                    junk <> [] /\ (limit < q -> In (RErr ELimit) junk).
+  Proof.
+    induction cs as [|ch cs IH]; intros c w fuel rest q Hc Hcs HJ Hs Hf; pose proof sl_pos as Hsl.
+    - cbn [concat] in HJ. rewrite app_nil_r in HJ. destruct HJ as [Hq _]. rewrite (crep_nosep _ _ Hc) in Hq. discriminate.
+    - inversion Hcs as [|? ? Hch Hcs']; subst. cbn [concat] in *.
+      destruct (cnext_chunk _ _ _ Hc Hch) as (off & Hinv & Hnext).
+      set (b := w ++ ch) in *.
+      assert (Hassoc : w ++ ch ++ concat cs = b ++ concat cs) by (unfold b; rewrite app_assoc; reflexivity).
+      rewrite Hassoc in *.
+      assert (Hbne : b <> []) by (unfold b; destruct w; [simpl; exact Hch | discriminate]).
+      cbn [cdeliver]. unfold cstep. rewrite Hnext.
+      destruct HJ as [Hq Hrest].
+      destruct (find0 sep b) as [p|] eqn:E.
+      + (* the terminator is inside the buffer: the skipped frame ends here *)
+        pose proof (find0_app_l _ _ (concat cs) _ E) as E'. assert (p = q) by congruence. subst p.
+        rewrite (ru_scan_found _ _ _ Hinv E).
+        pose proof (find0_Some _ _ _ E) as [Hocc _]. pose proof (occ_bound _ _ _ sep_ne Hocc) as Hb. fold sl in Hb.
+        rewrite skipn_app_le in Hrest by lia.
+        assert (Hsr : safe (skipn (q + sl) b)) by (apply (safe_app_l _ (concat cs)); rewrite Hrest; exact Hs).
+        destruct (cdrain_spec fuel (skipn (q + sl) b)) as (c2 & Hd & Hc2);
+          [rewrite skipn_length; rewrite app_length in Hf; lia | exact Hsr|].
+        destruct (cdeliver_spec cs c2 (snd (spec_events (skipn (q + sl) b))) fuel Hc2 Hcs') as (c3 & Hdel & Hc3).
+        { apply safe_tail_app. rewrite Hrest. exact Hs. }
+        { pose proof (spec_tail_len (skipn (q + sl) b)) as Hlen.
+          rewrite app_length in *. rewrite skipn_length in Hlen. lia. }
+        assert (Hev : fst (spec_events (skipn (q + sl) b)) ++
+                      fst (spec_events (snd (spec_events (skipn (q + sl) b)) ++ concat cs)) = fst (spec_events rest) /\
+                      snd (spec_events (snd (spec_events (skipn (q + sl) b)) ++ concat cs)) = snd (spec_events rest)).
+        { rewrite <- Hrest. rewrite (spec_events_app (skipn (q + sl) b) (concat cs)). split; reflexivity. }
+        destruct Hev as [Hev1 Hev2]. rewrite Hev2 in Hc3.
+        unfold ru_finish. unfold seplen. fold sl.
+        destruct (Nat.ltb_spec limit q) as [Hover|Hin].
+        * rewrite (overrun_remainder_occ _ _ _ sep_ne Hocc). fold sl. cbn [cres]. rewrite Hd, Hdel.
+          exists c3, [RErr ELimit]. cbn [app]. rewrite <- Hev1.
+          split; [reflexivity|]. split; [exact Hc3|]. split; [discriminate | intros _; left; reflexivity].
+        * destruct (dec _) as [x|]; cbn [cres]; rewrite Hd, Hdel.
+          -- exists c3, [RPkt x]. cbn [app]. rewrite <- Hev1. split; [reflexivity|]. split; [exact Hc3|].
+             split; [discriminate | intros; lia].
+          -- exists c3, [RErr EDecode]. cbn [app]. rewrite <- Hev1. split; [reflexivity|]. split; [exact Hc3|].
+             split; [discriminate | intros; lia].
+      + destruct (ru_scan_none _ _ Hinv E) as [Hn Hov].
+        destruct (le_lt_dec (length b + 1 - sl) limit) as [Hle|Hgt].
+        * (* still accumulating *)
+          destruct (Hn Hle) as (off' & -> & Hinv'). cbn [cres].
+          destruct (IH (mkc [] (Some (Some ((b : bytes), off')))) b fuel rest q) as (c' & junk & Hd & Hc' & Hj1 & Hj2);
+            [constructor; assumption | exact Hcs' | split; assumption | exact Hs | exact Hf |].
+          rewrite Hd. exists c', junk. cbn [app]. repeat split; assumption.
+        * (* size error with no separator in sight: keep the longest separator-prefix suffix and go on *)
+          rewrite (Hov Hgt). cbn [cres].
+          destruct (overrun_tail b (concat cs) rest q E ltac:(lia) (conj Hq Hrest)) as (Htl & Htn & q' & HJ').
+          set (t := overrun_remainder sep b (length b + 1 - sl)) in *.
+          assert (Hdrain : exists c1, cdrain F fuel (mkc t None) = (c1, []) /\ crep c1 t).
+          { destruct fuel as [|f]; [lia|]. cbn [cdrain]. destruct t as [|x t'] eqn:Et.
+            - rewrite cnext_none_nil. eexists; split; [reflexivity | constructor].
+            - rewrite <- Et in *. rewrite cnext_none_buf by (rewrite Et; discriminate).
+              destruct (ru_scan_none _ _ (ru_inv_0 t) Htn) as [Hn' _].
+              destruct Hn' as (o' & -> & Hi'); [lia|]. cbn [cres]. eexists; split; [reflexivity|].
+              constructor; try assumption; [rewrite Et; discriminate | lia]. }
+          destruct Hdrain as (c1 & Hd1 & Hc1). rewrite Hd1.
+          assert (Htb : length t <= length b) by lia.
+          destruct (IH c1 t fuel rest q' Hc1 Hcs' HJ' Hs) as (c' & junk & Hd & Hc' & _ & _);
+            [rewrite !app_length in *; lia|].
+          rewrite Hd. exists c', (RErr ELimit :: junk). cbn [app].
+          split; [reflexivity|]. split; [exact Hc'|]. split; [discriminate | intros _; left; reflexivity].
+  Qed.
 End RU.
